@@ -679,33 +679,49 @@ class Renderer:
         kind = sv.get("k", "sync")
         outcome = sv.get("outcome", "return")
         value = sv.get("value")
+        calls = {"n": 0}
+
+        def result():
+            if value == "$call":
+                return {"call": calls["n"]}
+            return copy.deepcopy(value)
+
         if kind == "sync":
             def svc(interp, ctx, event):
                 rec.step()
-                rec.log.append(("svc", "call", name, repr(_payload_of(event).get("input")), rec.now()))
+                calls["n"] += 1
+                rec.log.append(("svc", "call", name, repr(_payload_of(event).get("input")), rec.now(), calls["n"]))
                 if outcome == "raise":
-                    raise InjectedFault("service " + name)
-                return copy.deepcopy(value)
+                    raise InjectedFault(f"service {name} call {calls['n']}")
+                return result()
 
             return svc
+        if kind == "machine":
+            from xstate_statemachine import create_machine
+
+            child = sv["child"]
+            r2 = Renderer(child, rec, async_mode=self.async_mode, sleeper=self.sleeper)
+            return create_machine(r2.config(), logic=r2.logic())
         if kind == "coro":
             import asyncio
             ms = sv.get("ms", 0)
 
             async def asvc(interp, ctx, event):
                 rec.step()
-                rec.log.append(("svc", "call", name, repr(_payload_of(event).get("input")), rec.now()))
+                calls["n"] += 1
+                k = calls["n"]
+                rec.log.append(("svc", "call", name, repr(_payload_of(event).get("input")), rec.now(), k))
                 try:
                     if outcome == "never":
                         await asyncio.sleep(10 ** 6)
                     await asyncio.sleep(ms / 1000.0)
                 except asyncio.CancelledError:
-                    rec.log.append(("svc", "cancelled", name, None, rec.now()))
+                    rec.log.append(("svc", "cancelled", name, None, rec.now(), k))
                     raise
-                rec.log.append(("svc", "finish", name, outcome, rec.now()))
+                rec.log.append(("svc", "finish", name, outcome, rec.now(), k))
                 if outcome == "raise":
-                    raise InjectedFault("service " + name)
-                return copy.deepcopy(value)
+                    raise InjectedFault(f"service {name} call {k}")
+                return {"call": k} if value == "$call" else copy.deepcopy(value)
 
             return asvc
         if kind == "missing":
